@@ -247,9 +247,6 @@ struct ObjValueInner {
 thread_local! {
 	static RUNNING_ASSERTIONS: RefCell<FxHashSet<ObjValue>> = RefCell::default();
 }
-fn is_asserting(obj: &ObjValue) -> bool {
-	RUNNING_ASSERTIONS.with_borrow(|v| v.contains(obj))
-}
 /// Returns false if already asserting
 fn start_asserting(obj: &ObjValue) -> bool {
 	RUNNING_ASSERTIONS.with_borrow_mut(|v| v.insert(obj.clone()))
@@ -597,11 +594,10 @@ impl ObjValue {
 			match cache.entry(cache_key.clone()) {
 				Entry::Occupied(v) => match v.get() {
 					CacheValue::Cached(v) => return v.clone(),
-					CacheValue::Pending => {
-						if !is_asserting(self) {
-							bail!(InfiniteRecursionDetected);
-						}
-					}
+					// Assertions are run before the field is marked as pending, so there is no
+					// need to let the pending field through while they are running: a field
+					// which is read again during its own evaluation always depends on itself.
+					CacheValue::Pending => bail!(InfiniteRecursionDetected),
 				},
 				Entry::Vacant(v) => {
 					v.insert(CacheValue::Pending);
